@@ -50,6 +50,14 @@ FOCI15 = [
 ]
 if N >= 15:
     FOCI = FOCI15
+FOCI18 = [
+ "interaction of two features that are each fine alone (TLS + authentication, COPY + extended protocol, Close + COPY, oversized message + open portal, row limit + error, session middleware + terminate hook, two listeners, custom type + binary format): the change is correct for each feature in isolation and wrong when both are in play",
+ "a Go-semantics pitfall introduced by an innocent-looking edit: slice aliasing through append or re-slicing, a struct (with a mutex, a buffer or a slice header) copied by value, a closure capturing a loop or outer variable, a shadowed err or ctx, defer evaluation order, nil interface vs nil pointer, map iteration order relied upon, integer conversion",
+ "API evolution: a new exported helper, option or method is added (with its own doc comment) and the old one is re-implemented on top of it, or two near-duplicates are unified, and the old entry point's behaviour shifts in a corner (nil / empty argument, called twice, called in another order, called after an error)",
+ "concurrency performance work: a lock split or sharded, a lock-free fast path in front of a locked slow path, an atomic flag replacing a mutex, a background goroutine (flusher, reaper, logger) introduced, work moved out of a critical section",
+]
+if N >= 18:
+    FOCI = FOCI18
 props = [json.loads(l) for l in open('/verif/properties.jsonl')]
 earlier = {}
 for f in sorted(glob.glob('/verif/seeded/*/meta.json')):
